@@ -144,6 +144,27 @@ def graphql_resolver_only_recursion(job, failure) -> bool:
     )
 
 
+def union_order_cache_conflation(job, failure) -> bool:
+    """C13: Union[A, B] == Union[B, A] for typing, and the method caches are keyed by the type:
+    the union compiled first in the process decides the order of the alternatives of both;
+    identified by: the failure needs the reversed union compiled first and disappears without"""
+    if not job.get("opts", {}).get("warm_swapped") or failure.get("kind") != "value-differs-from-first-accepting":
+        return False
+    from vf.engine import run_concrete
+    from vf.run import harness_module
+    import apischema.cache
+
+    job2 = dict(job, opts={k: v for k, v in job["opts"].items() if k != "warm_swapped"})
+    apischema.cache.reset()
+    try:
+        fail, _ = run_concrete(harness_module(job2["harness"]).make(job2).body, failure["inputs"])
+    except Exception:
+        return False
+    finally:
+        apischema.cache.reset()
+    return fail is None
+
+
 def dependent_required_exclude_defaults(job, failure) -> bool:
     """C07: the output validates once dependentRequired is removed from the schema, and
     the job runs with exclude_defaults"""
